@@ -117,7 +117,9 @@ def server_get_line(case, df, etag_matches):
     dec, _ = decode_table(case, df)
     mode = case.get('differ_mode', ('stub', {'diff': 'stub'}))
     if mode == 'real':
-        dout = L([I(0), B(False)])
+        # what the real differ does with this content is an input of the handler model (it is an oracle there): the caller may say
+        outcome = case.get('differ_outcome', 'ok')
+        dout = L([I(0), B(False)]) if outcome == 'ok' else L([I(1)]) if outcome == 'undiffable' else L([I(2)])
     elif mode[0] == 'stub':
         dout = L([I(0), B('type' in mode[1])])
     elif mode[0] == 'raise' and type(mode[1]).__name__ == 'UndiffableContentError':
@@ -190,7 +192,7 @@ def run_cases(cases, model_available=True):
                 c = cases[i]
                 observations[i] = kit.request(build_path(c), headers=c.get('req_headers', {}),
                                               upstream=c.get('upstream'), files=c.get('files'),
-                                              production=c.get('production', False))
+                                              production=c.get('production', False), body=c.get('req_body'))
                 # what the service actually received (the test client adds Host, User-Agent, ...)
                 if observations[i].seen_headers is not None:
                     c['received_headers'] = observations[i].seen_headers
